@@ -181,7 +181,7 @@ func genIssueHistory(r *gen.Rand, w *gen.Writer) ([]script, []string) {
 				s.flashes = []flash{{"secret", genStr(r, false), genLevel(r, false)}}
 				s.wipos = []int{r.Intn(2)}
 			}
-			ends = append(ends, gen.Pick(r, []string{"ok", "ok", "back", "back", "to"}))
+			ends = append(ends, gen.Pick(r, []string{"ok", "ok", "back", "back", "to", "routeq", "backfb"}))
 		} else {
 			if len(s.olds) > 1 && r.Bool() {
 				s.olds = s.olds[:1]
@@ -189,7 +189,8 @@ func genIssueHistory(r *gen.Rand, w *gen.Writer) ([]script, []string) {
 			if len(s.olds) > 0 && len(s.wipos) == 0 {
 				s.wipos = []int{len(s.flashes)}
 			}
-			ends = append(ends, "to")
+			// every completing finisher has to deliver what was attached
+			ends = append(ends, gen.Pick(r, []string{"to", "to", "backref", "backfb", "route", "routep", "routeq", "routeq"}))
 		}
 		w.Count("ish-end-" + ends[i])
 		steps = append(steps, s)
